@@ -18,6 +18,8 @@ def patterns(nfields, thorough, ser=False):
     pats = [["leaf"] * nfields]
     rot = ["list", "none", "dictv"] if ser else ["list", "beanlist", "tuple", "none", "dictv"]
     pats.append([rot[i % len(rot)] for i in range(nfields)])
+    if not ser:
+        pats.append(["none"] * nfields)  # every field explicitly None (constructor defaults may differ)
     if thorough:
         pats.append([rot[(i + 2) % len(rot)] for i in range(nfields)])
         if not ser:
